@@ -42,7 +42,11 @@ let () =
     | id :: v :: wc :: wo :: rc :: ro :: ops ->
       let ops = parse_ops ops in
       let n s = nat_of_int (int_of_string s) in
+      if int_of_string v >= 10 then
+        (* stream glue cases (harness/c02_io.c): no mechanism model, specification only *)
+        Printf.printf "M %s %s\n" id (String.concat " " (List.map (fun _ -> "*") ops))
+      else begin
       let w = world_init (n wc) (n wo) (n rc) (n ro) in
-      Printf.printf "M %s %s\n" id (String.concat " " (List.map show_m (wrun (variant (int_of_string v)) w ops)));
+      Printf.printf "M %s %s\n" id (String.concat " " (List.map show_m (wrun (variant (int_of_string v)) w ops))) end;
       Printf.printf "S %s %s\n" id (String.concat " " (List.map show_spec (sspec_run { sent = []; cur = []; open_ = false } ops)))
     | _ -> ()) (read_lines ic)
